@@ -1,0 +1,8 @@
+// Package verifhook provides named instrumentation points used by the external
+// model-based verification harness.
+//
+// With the build tag "verif" a harness can install a callback that is invoked at
+// every point (to record an event or to park the calling goroutine). Without the
+// tag every function in this package is an empty stub that the compiler inlines
+// away, so regular builds are not affected.
+package verifhook
